@@ -134,6 +134,16 @@ def gen(seed, tier):
             payloads.append({"id": pid, "flavour": rng.choice(["asyncio", "asyncio", "trio"]), "via": "execute", "steps": rng.choice([[["hb", 0.05, None]], [["sleep", 0.3], ["return", "none"]]]), "cleanup_sync": rng.choice([0, 1, 2]), "late": True})
             xscript += [["sleep", rng.choice([0.0, 0.001, 0.01, 0.1, 0.3, 0.6, 1.0, 1.5])], ["execute", pid]]
         drivers.append({"id": "dx", "script": xscript})
+    if rng.random() < 0.12:
+        # a second failure in the last instants: a thread payload that was blocked until the termination began
+        # ends a little later by raising - possibly sys.exit() or KeyboardInterrupt - while a trio payload is
+        # still in its shielded clean-up.  Nobody is left to report it to; it changes nothing for the others
+        marker = {"sigint": "sigint-sent", "stop": "stop-call", "shutdown": "shutdown-call", "shutdown-trio-payload": "shutdown-call", "shutdown-asyncio-payload": "shutdown-call"}.get(trig, "start:trig")
+        payloads.append({"id": "lng", "flavour": "trio", "via": "queued", "steps": [["block"]], "cleanup_sync": 1, "cleanup_async": 2.0})
+        for j in range(rng.choice([1, 1, 2])):
+            payloads.append({"id": "lf%d" % j, "flavour": "threading", "via": rng.choice(["queued", "adopt"]), "steps": [["wait-marker", marker], ["sleep", rng.choice([0.0, 0.05, 0.3, 0.6, 1.0, 1.5])], ["raise", rng.choice(["SystemExit", "SystemExit", "KeyboardInterrupt", "LookupError"])]], "late_failure": True})
+            if payloads[-1]["via"] == "adopt":
+                drivers[0]["script"].insert(1, ["adopt", "lf%d" % j])
     knobs["horizon"] = 6.0 + knobs["accept_delay"] + 5.0 + sum(p.get("cleanup_async", 0) for p in payloads) + 3.0
     rng.shuffle(payloads)
     return {"prop": "C02", "seed": seed, "knobs": knobs, "payloads": payloads, "drivers": drivers, "trigger": trig, "grace": rng.choice([0.5, 2.5])}
@@ -186,6 +196,15 @@ def check(h, reason):
     bound = liveness_bound(h)
     if ended is None:
         if S.now - te["t"] > bound or reason == "deadlock":
+            # a distinct history (known finding, same root cause as C01's): two terminations, the later one a
+            # loop-killing one (a payload raising SystemExit / KeyboardInterrupt, or a SIGINT) while the first
+            # one's cleanup was under way, and an asyncio payload that swallowed the last cancellation it got
+            terms = [e for e in ev if e["kind"] in ("sigint-sent", "stop-call", "shutdown-call") or (e["kind"] == "raise" and e.get("pid") in specs) or (e["kind"] == "return" and e.get("value") != "none" and specs.get(e.get("pid"), {}).get("trigger"))]
+            killers = [e for e in terms if e["kind"] == "sigint-sent" or e.get("exc") in ("SystemExit", "KeyboardInterrupt")]
+            swallowing = sorted({e["pid"] for e in ev if e["kind"] == "swallowed-cancel" and specs.get(e["pid"], {}).get("flavour") == "asyncio"} - set(finished))
+            if swallowing and len(terms) >= 2 and killers and any(k["seq"] > terms[0]["seq"] for k in killers):
+                v.append({"key": "C02/not-ended/two-terminations/swallowed-last-cancel", "msg": "terminations %r; asyncio payload(s) %r swallowed the last cancellation sent to them and were never cancelled again: the run call had not ended %.2f virtual seconds after the trigger (%s)" % ([(e["kind"], e.get("pid"), e.get("exc") or e.get("value")) for e in terms], swallowing, S.now - te["t"], reason)})
+                return v, shape, True
             v.append({"key": "C02/not-ended/%s" % trig, "msg": "trigger %s at t=%.4f but the run call had not ended %.2f virtual seconds later (%s); thread payloads blocked: %d" % (trig, te["t"], S.now - te["t"], reason, sum(1 for e in ev if e["kind"] == "blocking" and specs[e["pid"]]["flavour"] == "threading"))})
         return v, shape, bool(running_at_trigger)
     if ended["t"] - te["t"] > bound:
